@@ -80,11 +80,16 @@ def alloc (cap : Option Nat) (n : Nat) : Parser Unit := fun bs =>
   | none => .ok ((), bs)
   | some c => if n ≤ c then .ok ((), bs) else .oom
 
+def limOK (lim : Option Nat) (n : Nat) : Bool :=
+  match lim with
+  | some l => decide (n ≤ l)
+  | none => true
+
 /-- `Reader.StrRaw`/`Str` with the string length limit `lim` (`none`: unchecked, the
 unrepaired code) and the allocation cap. -/
 def str (lim : Option Nat) (cap : Option Nat) : Parser Bytes := do
   let n ← strLen
-  guard (match lim with | some l => decide (n ≤ l) | none => true)
+  guard (limOK lim n)
   alloc cap n
   take n
 
